@@ -1,7 +1,21 @@
-import numpy as np
+import inspect
 import warnings
 
+import numpy as np
 from scipy.stats import norm
+
+
+def predict_epistemic_std(model, X):
+    """Mean and epistemic standard deviation predicted by ``model`` at ``X``.
+
+    Only the forest surrogates can disentangle their predictive standard deviation into an
+    aleatoric and an epistemic part (``predict(..., disentangled_std=True)``). For the other
+    surrogate models (e.g., ``"GP"``, ``"GBRT"``, ``"HGBRT"``) the total standard deviation is used.
+    """
+    if "disentangled_std" in inspect.signature(model.predict).parameters:
+        mu, _, std_ep = model.predict(X, return_std=True, disentangled_std=True)
+        return mu, std_ep
+    return model.predict(X, return_std=True)
 
 
 def gaussian_acquisition_1D(
@@ -174,10 +188,7 @@ def gaussian_lcb(X, model, kappa=1.96, return_grad=False, deterministic=False):
 
         else:
             if deterministic:
-                mu, std_al, std_ep = model.predict(
-                    X, return_std=True, disentangled_std=True
-                )
-                std = std_ep
+                mu, std = predict_epistemic_std(model, X)
             else:
                 mu, std = model.predict(X, return_std=True)
             if kappa == "inf":
@@ -238,10 +249,7 @@ def gaussian_pi(X, model, y_opt=0.0, xi=0.01, return_grad=False, deterministic=F
             )
         else:
             if deterministic:
-                mu, std_al, std_ep = model.predict(
-                    X, return_std=True, disentangled_std=True
-                )
-                std = std_ep
+                mu, std = predict_epistemic_std(model, X)
             else:
                 mu, std = model.predict(X, return_std=True)
 
@@ -327,10 +335,7 @@ def gaussian_ei(X, model, y_opt=0.0, xi=0.01, return_grad=False, deterministic=F
 
         else:
             if deterministic:
-                mu, std_al, std_ep = model.predict(
-                    X, return_std=True, disentangled_std=True
-                )
-                std = std_ep
+                mu, std = predict_epistemic_std(model, X)
             else:
                 mu, std = model.predict(X, return_std=True)
 
@@ -421,10 +426,7 @@ def gaussian_mes(X, model, k_samples=10, deterministic=False):
         warnings.simplefilter("ignore")
 
         if deterministic:
-            mu, std_al, std_ep = model.predict(
-                X, return_std=True, disentangled_std=True
-            )
-            std = std_ep
+            mu, std = predict_epistemic_std(model, X)
         else:
             mu, std = model.predict(X, return_std=True)
 
